@@ -15,6 +15,7 @@ func init() {
 		e.RFileScope()
 		e.RPerFileState()
 		e.RPackageCommentGap()
+		e.RGuard("fragger", "decorate", "restore")
 		e.RNewlineScan()
 		e.RClauseSym()
 		e.RHangGuard()
